@@ -201,3 +201,9 @@ def replay(ctx, path):
     fail = sv or bad or (got != expected_steps(h, tr))
     print('REPRODUCED' if fail else 'not reproduced')
     return 1 if fail else 0
+
+
+MANIFEST = dict(
+    technique='Coq proof (invariant by induction over histories + refinement of an abstract workspace) with model/code correspondence',
+    text='Theorems (coq/Props/C17.v, closed under the global context) hold for every operation history of the modelled workspace: the index/list invariant, refinement of the abstract workspace, add-iff-free, deployed-exactly, failed-build isolation. The model is tied to workspace.rs by comparing every step of exhaustive short and random long histories (state via the verif_snapshot hook).',
+    note='Trusted: Coq kernel + vm_compute, hand-written model of workspace.rs (correspondence-checked, not verified), harness, ModelEvaluator::new abstracted to a `builds` flag.')
